@@ -7,8 +7,9 @@
 (* and are skipped (their length still counts).  Properties C04 / C02.             *)
 (*                                                                                 *)
 (* A line is [kind, lead, body]: kind "prose" (its body is one word), "dir" (a     *)
-(* tool directive such as `noqa`; prose for the code as it is), "bt" / "tl" (a      *)
-(* fence line of backticks / tildes); lead = width of the stripped leader.          *)
+(* tool directive such as `noqa`; prose for the code as it is), and fence lines:    *)
+(* "bt" / "tl" three backticks / tildes, "bt4" / "tl4" four of them, "bti" / "tli"   *)
+(* three with an info string behind them; lead = width of the stripped leader.       *)
 (*                                                                                 *)
 (* Named deviations (constants):                                                    *)
 (*   Recognised = {"bt"}          before the repair 5b2d4d0: tilde fences unknown    *)
@@ -17,10 +18,18 @@
 (*                                counting their length ("skip-counted" would be a   *)
 (*                                correct way to drop them; "prose" is the code)     *)
 (*   Tracked = FALSE              before the repair e9361fe (JSDoc): no fence state  *)
+(*   CloseAnyLength = TRUE        the first form of the repair: any fence of the     *)
+(*                                same kind closed a block (a block opened by four   *)
+(*                                backticks was closed by an inner line of three)    *)
 EXTENDS Naturals, Sequences, FiniteSets, TLC
-CONSTANTS MaxLines, Recognised, CloseByAny, Directives, Tracked
+CONSTANTS MaxLines, Recognised, CloseByAny, Directives, Tracked, CloseAnyLength
 VARIABLES lines
-Kinds == {"prose", "dir", "bt", "tl"}
+Kinds == {"prose", "dir", "bt", "tl", "bt4", "tl4", "bti", "tli"}
+IsFence(k) == k \notin {"prose", "dir"}
+FenceChar(k) == IF k \in {"bt", "bt4", "bti"} THEN "bt" ELSE "tl"
+FenceLen(k) == IF k \in {"bt4", "tl4"} THEN 4 ELSE 3
+HasInfo(k) == k \in {"bti", "tli"}
+None == [ch |-> "none", len |-> 0]
 LineSet == [kind : Kinds, lead : 1..2, body : 1..2]
 LineLen(ln) == ln.lead + ln.body
 \* offset of line i in the block (lines are joined by one line feed)
@@ -30,32 +39,33 @@ BodyChars(ls, i, at) == {at + ls[i].lead + k : k \in 0..(ls[i].body - 1)}
 
 \* ---- what Markdown means: a block opened by a fence is closed by the next fence of the same kind
 RECURSIVE OpenAfter(_, _)
-OpenAfter(ls, i) ==     \* the kind of fence open after line i ("none" when outside)
-  IF i = 0 THEN "none"
+OpenAfter(ls, i) ==     \* the fence open after line i: [ch, len] (None when outside a block)
+  IF i = 0 THEN None
   ELSE LET before == OpenAfter(ls, i - 1) k == ls[i].kind IN
-       IF k \notin {"bt", "tl"} THEN before
-       ELSE IF before = "none" THEN k ELSE IF before = k THEN "none" ELSE before
-IsCodeLine(ls, i) == OpenAfter(ls, i - 1) # "none" \/ ls[i].kind \in {"bt", "tl"}
+       IF ~IsFence(k) THEN before
+       ELSE IF before = None THEN [ch |-> FenceChar(k), len |-> FenceLen(k)]
+       ELSE IF before.ch = FenceChar(k) /\ FenceLen(k) >= before.len /\ ~HasInfo(k) THEN None ELSE before
+IsCodeLine(ls, i) == OpenAfter(ls, i - 1) # None \/ IsFence(ls[i].kind)
 Prose(ls) == UNION {BodyChars(ls, i, Start(ls, i)) : i \in {j \in DOMAIN ls : ~IsCodeLine(ls, j)}}
 
 \* ---- what the parser does
-ParserSees(k) == k \in Recognised
+ParserSees(k) == FenceChar(k) \in Recognised
 RECURSIVE Run(_, _, _, _, _)
 Run(ls, i, traversed, open, offered) ==
   IF i > Len(ls) THEN offered
   ELSE LET ln == ls[i]
-           fence == IF ln.kind \in {"bt", "tl"} /\ ParserSees(ln.kind) /\ Tracked THEN ln.kind ELSE "none"
-           open2 == IF fence = "none" THEN open
-                    ELSE IF open = "none" THEN fence
-                    ELSE IF CloseByAny \/ open = fence THEN "none" ELSE open
+           fence == IF IsFence(ln.kind) /\ ParserSees(ln.kind) /\ Tracked THEN [ch |-> FenceChar(ln.kind), len |-> FenceLen(ln.kind)] ELSE None
+           closes == open # None /\ fence # None
+                     /\ (CloseByAny \/ (open.ch = fence.ch /\ (CloseAnyLength \/ (fence.len >= open.len /\ ~HasInfo(ln.kind)))))
+           open2 == IF fence = None THEN open ELSE IF open = None THEN fence ELSE IF closes THEN None ELSE open
            next == traversed + LineLen(ln) + 1
-       IN IF open2 # "none" THEN Run(ls, i + 1, next, open2, offered)                 \* inside a block: skipped, counted
+       IN IF open2 # None THEN Run(ls, i + 1, next, open2, offered)                   \* inside a block: skipped, counted
           ELSE IF ln.kind = "dir" /\ Directives = "skip-counted" THEN Run(ls, i + 1, next, open2, offered)
           ELSE IF ln.kind = "dir" /\ Directives = "skip-uncounted" THEN Run(ls, i + 1, traversed, open2, offered)
-          ELSE IF ln.kind \in {"bt", "tl"} THEN Run(ls, i + 1, next, open2, offered)   \* a closing (or unknown) fence line: the inner
-                                                                                        \* parser makes it unlintable / the model's prose has no fence lines
+          ELSE IF IsFence(ln.kind) THEN Run(ls, i + 1, next, open2, offered)           \* a closing (or unknown) fence line: the inner
+                                                                                        \* parser makes it unlintable
           ELSE Run(ls, i + 1, next, open2, offered \cup BodyChars(ls, i, traversed))
-Offered(ls) == Run(ls, 1, 0, "none", {})
+Offered(ls) == Run(ls, 1, 0, None, {})
 \* an unrecognised fence line is handed to the inner parser as a line of its own, which (being Markdown) makes an
 \* unlintable code block of it: it is never offered.  Lines of code behind it are what goes wrong.
 
